@@ -40,14 +40,18 @@ func coreC19(tier string) []RunSpec {
 	out = append(out, RunSpec{Profile: "core:restore-continue", Params: map[string]int{"scenario": 1}})
 	out = append(out, RunSpec{Profile: "core:restore-continue-rot", Params: map[string]int{"scenario": 1, "rot": 1}})
 	out = append(out, RunSpec{Profile: "core:many-outputs", Params: map[string]int{"scenario": 2}})
+	out = append(out, RunSpec{Profile: "core:many-outputs-then-rotation", Params: map[string]int{"scenario": 2, "rot": 1}})
 	// known finding: SIG_ALL token from an untrusted mint, swap-to-trusted fails, received again
-	out = append(out, RunSpec{Profile: "core:sigall-crossmint-again", Params: map[string]int{"scenario": 3, "mints": 2}})
+	out = append(out, RunSpec{Profile: "core:sigall-crossmint-again", Params: map[string]int{"scenario": 3, "mints": 2, "fee": 0}})
 	return out
 }
 
 func runC19(rc *RunCtx) {
 	T := rc.T
 	fee := c17Fees[T.Choose("cfg.fee", 3)]
+	if v, ok := rc.Spec.Params["fee"]; ok {
+		fee = c17Fees[v]
+	}
 	ln := LNConfig{FeePolicy: 1 + T.Choose("cfg.feepol", 3), PayOutcomeMix: T.Choose("cfg.mix", 2)}
 	if _, ok := rc.Spec.Params["crashop"]; ok {
 		ln.PayOutcomeMix = 0
@@ -75,13 +79,16 @@ func runC19(rc *RunCtx) {
 		c19RestoreContinue(ww, rc.P("rot", 0) == 1)
 		return
 	case 2:
-		c19ManyOutputs(ww)
+		c19ManyOutputs(ww, rc.P("rot", 0) == 1)
 		return
 	case 3:
 		// the 1 sat token cannot be moved across (fees), so the swap-to-trusted receive fails after
 		// its unlocking swap; then the same token is received without swap-to-trusted
 		c17SigAllCrossMint(ww, 1)
 		checked = ww.CheckCounters(checked)
+		if len(ww.Tokens) == 0 {
+			return // the locked send did not come about: trivial run
+		}
 		t := ww.Tokens[len(ww.Tokens)-1]
 		ww.op("w.receive p2pk sigall=true crossmint=false")
 		ww.W.WalletOp(t.To, "recv2", nil, func(wl *wallet.Wallet) {
@@ -269,7 +276,7 @@ func c19RestoreContinue(ww *WW, rotate bool) {
 	ww.restoreWallet(ww.Wallets[0], false, "final")
 }
 
-func c19ManyOutputs(ww *WW) {
+func c19ManyOutputs(ww *WW, rotateAfter bool) {
 	// more than 300 outputs on one keyset: many small sends (each swap creates several outputs)
 	w := ww.Wallets[0]
 	mint := mintNameOfURL(ww.node(w).Mint)
@@ -301,6 +308,23 @@ func c19ManyOutputs(ww *WW) {
 	}
 	if ctr > 300 {
 		ww.rc.S.Probe("c19_more_than_300_outputs")
+	}
+	if rotateAfter {
+		// the mint rotates after the long history; the same wallet goes on using the new keyset
+		ww.StepRotate([]uint64{0, 100})
+		ww.op("w.mint(after rotation)")
+		ww.W.WalletOp(w, ww.name("afterrot"), nil, func(wl *wallet.Wallet) {
+			q, e := wl.RequestMint(700, ww.mintURL(mint))
+			if e != nil {
+				return
+			}
+			if mq := ww.W.Book.Mint(mint).MQ[q.Quote]; mq != nil {
+				ww.W.LN.PayExternal(mq.Hash)
+			}
+			wl.MintTokens(q.Quote)
+		})
+		ww.CheckCounters(0)
+		ww.rc.S.Probe("c19_rotation_after_300_outputs")
 	}
 	ww.restoreWallet(w, true, "many outputs")
 	// the restored wallet continues: it mints more, then the same mnemonic is restored again
